@@ -23,6 +23,6 @@ one() {
   rm -rf /tmp/vf_scratch/$id /tmp/run_seeded_$id.log
 }
 export -f one
-printf "%s\n" $ids | xargs -P $J -I{} bash -c "one {}" | sort > /tmp/seeded_results.$$ && mv /tmp/seeded_results.$$ seeded/RESULTS.txt  # written only when the whole run is complete
+printf "%s\n" $ids | xargs -P $J -I{} bash -c "one {}" | sort > /tmp/seeded_results.$$ && mv /tmp/seeded_results.$$ ${SEEDED_RESULTS:-seeded/RESULTS.txt}  # written only when the whole run is complete
 git -C /repo worktree prune
-cat seeded/RESULTS.txt | awk '{print $2}' | sort | uniq -c
+cat ${SEEDED_RESULTS:-seeded/RESULTS.txt} | awk '{print $2}' | sort | uniq -c
